@@ -209,6 +209,9 @@ def complex_cases(rng, n, ctx, classes):
         A = pe.CObs(real_obs[0], real_obs[1])
         eA = {'op': 'cvar', 're': 1, 'im': 2, 'leaf': 0}
         zc = complex(float(np.round(rng.uniform(0.5, 2), 2)), float(np.round(rng.uniform(0.5, 2), 2)) * (1 if rng.random() < 0.5 else -1))
+        if i % 20 in (7, 17, 9, 14, 19):
+            # a complex number is a complex number however small its parts are in absolute terms (with a complex and with a real observable, under - * /)
+            zc = complex(float(np.round(rng.uniform(1, 5), 2)) * 1e-9, float(np.round(rng.uniform(1, 5), 2)) * 1e-9 * (1 if rng.random() < 0.5 else -1))
         zr = float(np.round(rng.uniform(0.5, 2), 2))
         if lk == 'cc':
             Bv, eB, ops = pe.CObs(real_obs[2], real_obs[3]), {'op': 'cvar', 're': 3, 'im': 4, 'leaf': 1}, real_obs
